@@ -154,13 +154,14 @@ _BOOM = ("f1", "raise", "boom1", (), None)
 # always run (thread executor): situations the random programs reach only sometimes
 SCENARIOS = [
     # the same subrun under two different parents, one after the other: CSE hit on the _subrun_root_task job
-    ("cse-twins", ("q", "seq", 0, (("a", "list", 0, (_S("S", _LEAVES),), None), ("b", "list", 1, (_S("S", _LEAVES),), None)), None), [True]),
+    # (the two subrun nodes differ in name only, so the calling jobs differ and the subrun expressions are equal)
+    ("cse-twins", ("q", "seq", 0, (_S("Sa", _LEAVES), _S("Sb", _LEAVES)), None), [True]),
     # full validity checking, run twice: a single-reduction entry for the job exists in the second run and must not be used
     ("full-twice", _S("S", _LEAVES, check_valid="full"), [True, True]),
     ("full-twice-new", _S("S", _LEAVES, True, check_valid="full", cache_scope="BACKEND"), [True, True, False]),
     # errors, replayed: the dict with 'error' (extend) and the failed job (new execution)
     ("error-extend-twice", ("c", "catch", 0, (_S("S", _BOOM),), None), [True, True]),
-    ("error-new-twins", ("q", "seq", 0, (("c1", "catch", 0, (_S("S", _BOOM, True),), None), ("c2", "catch", 0, (("w", "list", 0, (_S("S", _BOOM, True),), None),), None)), None), [True, True]),
+    ("error-new-twins", ("q", "seq", 0, (("c1", "catch", 0, (_S("Sa", _BOOM, True),), None), ("c2", "catch", 0, (_S("Sb", _BOOM, True),), None)), None), [True, True]),
 ]
 
 
@@ -170,7 +171,7 @@ def make_scheduler(db, busy_timeout=2.0):
     from redun.config import Config
     cfg = {"backend": {"db_uri": f"sqlite:///{db}?timeout={busy_timeout}", "db_retries": "3", "db_retries_backoff": "0.05"},
            "executors.default": {"type": "local", "mode": "thread"},
-           "executors.process": {"type": "local", "mode": "process", "start_method": "fork"}}
+           "executors.process": {"type": "local", "mode": "process"}}
     s = Scheduler(config=Config(cfg))
     s.load()
     s.logger.disabled = True
@@ -833,7 +834,8 @@ class Check(PropertyCheck):
                 done_thread += 0 if proc else 1
                 nodes = subrun_nodes(spec)
                 self.count(repr(spec) if spec_size(spec) >= 3 else None, len(caches))
-                self.stat("programs", "process executor" if proc else "thread executor")
+                if not isinstance(plan[i], tuple):
+                    self.stat("programs", "process executor" if proc else "thread executor")
                 self.stat("expected", exp[0])
                 for nd in nodes:
                     p = dict(nd[2])
